@@ -36,6 +36,14 @@ MUTANTS = {
     "c02-no-odd-rule": ("pulsarbat/core.py", 'self._freq_align = "center" if self.nchan % 2 else freq_align',
                         'self._freq_align = freq_align', ["C02"]),
     "c02-stokes-index": ("pulsarbat/core.py", '_stokes_ids = {"I": 0, "Q": 1, "U": 2, "V": 3}', '_stokes_ids = {"I": 0, "Q": 2, "U": 1, "V": 3}', ["C02"]),
+    "c10-no-contig": ("pulsarbat/transforms/transforms.py", "elif not Time.isclose(ref_st + (n / ref_sr), s.start_time):", "elif False:", ["C10"]),
+    "c10-atol-1s": ("pulsarbat/transforms/transforms.py", "elif not Time.isclose(ref_st + (n / ref_sr), s.start_time):",
+                    "elif not Time.isclose(ref_st + (n / ref_sr), s.start_time, atol=1 * u.s):", ["C10"]),
+    "c10-n-early": ("pulsarbat/transforms/transforms.py", "        for s in signals:\n            if s.start_time is not None:\n                if ref_st is None:\n                    ref_st = s.start_time - (n / ref_sr)",
+                    "        for s in signals:\n            n += len(s)\n            if s.start_time is not None:\n                if ref_st is None:\n                    ref_st = s.start_time - ((n - len(s)) / ref_sr)", ["C10"]),
+    "c10-keep-align": ("pulsarbat/transforms/transforms.py", '        kw["freq_align"] = "center"\n', "", ["C10"]),
+    "c10-cf-f0": ("pulsarbat/transforms/transforms.py", 'kw["center_freq"] = (f0 + f1) / 2', 'kw["center_freq"] = f0', ["C10"]),
+    "c10-no-type": ("pulsarbat/transforms/transforms.py", "if not all(type(s) is sig_type for s in signals):", "if not all(isinstance(s, pb.Signal) for s in signals):", ["C10"]),
 }
 
 # behaviour-preserving edits: no check may fire
